@@ -1320,3 +1320,6 @@ mod ffi_test {
         );
     }
 }
+
+#[cfg(kani)]
+pub(crate) mod verif_kani;
